@@ -290,6 +290,74 @@ func checkC06(c *Ctx) {
 			c.Sample(map[string]interface{}{"source": src, "events": e})
 		}
 	}
+	// the exhaustive family of occurrence sequences (GenHoist.tla)
+	maxLen, every := 3, 1
+	if !c.Quick() {
+		maxLen, every = 4, 6
+	}
+	fam, ok := cachedGenModule(c, "GenHoist", map[string]int{"MaxLen": maxLen}, "hoists.ndjson")
+	if !ok {
+		return
+	}
+	textsOf := [][]string{{"x"}, {"x$"}}
+	movesOf := [][]ListItem{{{Name: "walk_up", Mul: "2"}}, {{Name: "walk_up"}, {Name: "walk_up"}}, {{Name: "walk_up", Mul: "3"}},
+		{{Name: "face_left"}, {Name: "walk_up", Mul: "2"}}}
+	nfam := 0
+	for i, ln := range fam["hoists.ndjson"] {
+		var occs []struct {
+			Script string `json:"script"`
+			Kind   string `json:"kind"`
+			C      int    `json:"c"`
+			Type   string `json:"type"`
+		}
+		if jsonUnmarshal([]byte(ln), &occs) != nil {
+			c.Fatal("bad GenHoist line")
+			return
+		}
+		if len(occs) == maxLen && every > 1 && (int64(i)+c.Seed)%int64(every) != 0 {
+			continue
+		}
+		bodies := map[string][]Stmt{}
+		for k, oc := range occs {
+			cmd := fmt.Sprintf("h%d_%d", i, k)
+			var in Inline
+			if oc.Kind == "text" {
+				in = Inline{Kind: "text", Parts: textsOf[oc.C-1], Type: oc.Type}
+			} else {
+				in = Inline{Kind: "moves", Steps: movesOf[oc.C-1]}
+			}
+			bodies[oc.Script] = append(bodies[oc.Script], Stmt{K: "cmd", Toks: []string{cmd, "@inl0"}, Inl: []Inline{in}})
+		}
+		f := &File{}
+		// script B may come first in the file: numbering is per script, sharing per file
+		order := []string{"A", "B"}
+		if i%2 == 1 {
+			order = []string{"B", "A"}
+		}
+		for _, sn := range order {
+			if b, ok := bodies[sn]; ok {
+				f.Tops = append(f.Tops, Top{K: "script", Name: sn, Body: b})
+			}
+		}
+		src, _ := RenderFile(f, Style{R: r, Layout: 1})
+		o := Opts{Optimize: true}
+		res := Compile(src, o)
+		if res.Panic != "" || res.TimedOut {
+			c.Violate(Violation{What: "compiler panicked or hung on a well-formed file", Source: src, Opts: &o})
+			continue
+		}
+		id := fmt.Sprintf("g%d", i)
+		e, err := hoistEvents(id, f, res)
+		if err != nil {
+			c.Fatal("building events: %v", err)
+			return
+		}
+		nocc += len(occs)
+		nfam++
+		evs = append(evs, e...)
+		files[id] = rec{src, o, res.Out + fmt.Sprint(res.Err), e}
+	}
+	c.Cov("genhoist_files", int64(nfam))
 	to := runTraceSpec(c, "HoistTrace", "HoistTrace.cfg", "hoist.ndjson", evs)
 	for id, why := range to.Rejected {
 		f := files[id]
